@@ -140,6 +140,42 @@ def hvCmd (op : String) (st : Store) : Option (P (Store × String)) :=
         | .ok (k, s') =>
           let o' := HvObj.az s'
           pure (st.put id o', s!"ok {k} {fObj o'}"))
+  | "hv.fdwrakw" => some (withObj fun id o => do
+      -- frequency_domain_window_rejection with find_peaks_kwargs given explicitly (kw = 1: {}), optionally on ONE azimuth of an azimuthal object (az ≥ 1: azimuth az-1)
+      let p ← pFdwra; let kw ← bool; let az ← nat
+      match o with
+      | .trad s =>
+        match fdwraTradKw p kw s with
+        | .error e => pure (st, "err " ++ e)
+        | .ok (k, s', trs) =>
+          let o' := HvObj.trad s'
+          pure (st.put id o', s!"ok {k} {fObj o'} trace {trs.length} " ++ " ".intercalate (trs.map fTrace))
+      | .az s =>
+        if az = 0 then
+          match fdwraAzKw p kw s with
+          | .error e => pure (st, "err " ++ e)
+          | .ok (k, s') =>
+            let o' := HvObj.az s'
+            pure (st.put id o', s!"ok {k} {fObj o'}")
+        else
+          match s.hvsrs[az - 1]? with
+          | none => pure (st, "err noaz")
+          | some h =>
+            match fdwraTradKw p kw h with
+            | .error e => pure (st, "err " ++ e)
+            | .ok (k, h', _) =>
+              let hs := (List.zip (List.range s.hvsrs.length) s.hvsrs).map (fun q => if q.1 = az - 1 then h' else q.2)
+              let o' := HvObj.az { s with hvsrs := hs }
+              pure (st.put id o', s!"ok {k} {fObj o'}"))
+  | "hv.subupdate" => some (withObj fun id o => do
+      -- update_peaks_bounded on ONE azimuth of an azimuthal object
+      let az ← nat; let r ← pRange; let kw ← bool
+      let o' := match o with
+        | .trad s => HvObj.trad (updatePeaks r kw s)
+        | .az s =>
+          let hs := (List.zip (List.range s.hvsrs.length) s.hvsrs).map (fun q => if q.1 = az then updatePeaks r kw q.2 else q.2)
+          HvObj.az { s with hvsrs := hs }
+      pure (st.put id o', "ok " ++ fObj o'))
   | "hv.roundtrip" => some (withObj fun id o => do
       -- write to the text format and read back (labels = bit patterns of the azimuths); the object is replaced
       let d ← pDist
